@@ -22,7 +22,7 @@ JOBS = {'quick': 2, 'thorough': 16}
 REQUIRED_MONITORS = ('tiling_vs_reference', 'random_access_vs_reference', 'iterator_vs_reference')
 REQUIRED_CLASSES = ('layout:blocks', 'layout:alternating', 'layout:same-name-different-size',
                     'layout:same-name-size-different-atoms', 'layout:single-atom', 'layout:giant', 'layout:digit-names',
-                    'layout:resid-wrap', 'layout:constant-name-increasing-number', 'vel:yes', 'vel:no', 'vel:some-atoms-at-rest', 'box:triclinic-lower', 'box:triclinic-general', 'atom-numbers:restarts', 'atom-numbers:arbitrary', 'atom-numbers:offset',
+                    'layout:resid-wrap', 'layout:constant-name-increasing-number', 'vel:yes', 'vel:no', 'vel:some-atoms-at-rest', 'box:triclinic-lower', 'box:triclinic-general', 'values:full-width-numbers', 'atom-numbers:restarts', 'atom-numbers:arbitrary', 'atom-numbers:offset',
                     'op:index', 'op:negative-index', 'op:slice', 'op:slice-negative-step', 'op:next', 'op:out-of-range',
                     'object:fresh-never-walked', 'object:walked-completely-before')
 RULE = ('files: residue layout class x residue sizes 1..12 x 1..400 residues (thorough: up to 5000) x velocities; access '
@@ -123,6 +123,12 @@ def gen_file(rng, layout, nres_max):
         for a in atoms:
             xyz = tuple(float(np.round(x, 3)) for x in rng.uniform(-9, 99, 3))
             v = tuple(float(np.round(x, 4)) for x in rng.normal(size=3)) if vel else None
+            if rng.random() < 0.04:
+                # numbers that fill their whole column (no blank before them): 1000.000 .. 9999.999, -999.999, 100.0000 ..
+                xyz = tuple(float(np.round(x, 3)) for x in rng.choice([1, -0.1], 3) * rng.uniform(1000, 9999.999, 3))
+                if vel:
+                    v = tuple(float(np.round(x, 4)) for x in rng.choice([1, -0.1], 3) * rng.uniform(100, 999.9999, 3))
+                _rest.append('full-width-numbers')
             if vel and rng.random() < 0.08:
                 v = (0.0, 0.0, 0.0)           # an atom at rest (frozen group, wall, velocities not generated yet)
                 rest[0] += 1
@@ -196,7 +202,8 @@ def run_case(ctx, case):
         ctx.hit('vel:some-atoms-at-rest')
         _rest[0] = 0
     while len(_rest) > 1:
-        ctx.hit('atom-numbers:' + _rest.pop())
+        flag = _rest.pop()
+        ctx.hit('values:full-width-numbers' if flag == 'full-width-numbers' else 'atom-numbers:' + flag)
     w = {'layout': layout, 'n_residues': len(want), 'file_head': open(path).read()[:900]}
     try:
         s = SystemGro(path)
